@@ -142,6 +142,21 @@ def rel_width(x):
         return math.inf
 
 
+def sym(x):
+    """Shadow magnitude of a node without value: spans m and 1/m, because simplification may enlarge the domain and
+    later rules may invert what they find (Reciprocal(Power(-0.5, 10)) becomes 1024 once the Power is an NthPower)."""
+    try:
+        m = abs(x)
+        hi = m.b
+        if is_zero(hi):
+            return _IV1
+        lo = 1 / hi
+        a = lo.a if lo.a < m.a else m.a
+        return iv.mpf([a, hi.b if hi.b > lo.b else lo.b])
+    except Exception:
+        return _IV1
+
+
 def infl(x, k, scale):
     """Relative inflation by k*scale ulps (u = 2^-53)."""
     if scale == 0 or k == 0:
@@ -351,7 +366,7 @@ class Model:
             st = "missing" if any(c.st == "missing" for c in bad) else (
                 "undef" if any(c.st == "undef" for c in bad) else "indet")
             try:
-                sh = self._shadow_value(s, kids)
+                sh = sym(self._shadow_value(s, kids))
             except Exception:
                 sh = _IV1
             return Val(st, sh, None, False, True, "child without value")
@@ -374,22 +389,22 @@ class Model:
         if k == "Negation":
             return xs[0]
         if k in ("Divide",):
-            return xs[0] / xs[1] if all_pos(xs[1]) else xs[0]
+            return xs[0] * sym(xs[1])
         if k == "Reciprocal":
-            return 1 / xs[0] if all_pos(xs[0]) else _IV1
+            return sym(xs[0])
         if k == "NthPower":
             return ipow(xs[0], S.int_n(s[2]))
         if k == "NthRoot":
             return xs[0] + 1
         if k == "Exponential":
             b = S.base_value(s[2])
-            return iv.exp(xs[0] * abs(iv.log(ivnum(b)))) if b != 1 else _IV1
+            return iv.exp(xs[0].b * abs(iv.log(ivnum(b)))) if b != 1 else _IV1
         if k == "Logarithm":
-            return abs(iv.log(xs[0])) + 1 if all_pos(xs[0]) else _IV1
+            m = sym(xs[0])
+            return abs(iv.log(m.b)) + 1
         if k == "Power":
-            if all_pos(xs[0]):
-                return iv.exp(xs[1] * abs(iv.log(xs[0])))
-            return _IV1
+            m = sym(xs[0])
+            return iv.exp(xs[1].b * abs(iv.log(m.b)))
         return _IV1
 
     def _guard_fail(self, res, s, why, decisive):
@@ -421,7 +436,7 @@ class Model:
             g = self._nonzero(b)
             if g != "ok":
                 st = self._guard_fail(res, s, "zero denominator" if g == "fail" else "denominator may be zero", g == "fail")
-                return Val(st, abs(a.iv), None, False, True, "Divide by zero")
+                return Val(st, sym(abs(a.iv)), None, False, True, "Divide by zero")
             x = infl(a.iv / b.iv, KB, sc)
             ex = None
             if a.ex is not None and b.ex is not None and b.ex != 0:
@@ -466,7 +481,7 @@ class Model:
             if g != "ok":
                 st = self._guard_fail(res, s, "logarithm of a non-positive number" if g == "fail" else "logarithm argument may be non-positive", g == "fail")
                 sh = abs(iv.log(abs(a.iv))) + 1 if not contains_zero(a.iv) else _IV1
-                return Val(st, sh, None, False, True, "Logarithm domain")
+                return Val(st, sym(sh), None, False, True, "Logarithm domain")
             b = S.base_value(s[2])
             if s[2] is None or b == math.e:
                 lb = self._ln_e()
@@ -568,7 +583,7 @@ class Model:
             else:
                 why = "root of zero" if g == "fail" else "root argument may be zero"
             st = self._guard_fail(res, s, why, g == "fail")
-            return Val(st, abs(a.iv) + 1, None, False, True, "NthRoot domain")
+            return Val(st, sym(abs(a.iv) + 1), None, False, True, "NthRoot domain")
         neg = all_neg(a.iv)
         m = -a.iv if neg else a.iv
         if n == 2:
@@ -623,7 +638,7 @@ class Model:
             sh = _IV1
             if not contains_zero(a.iv):
                 sh = iv.exp(abs(b.iv) * abs(iv.log(abs(a.iv))))
-            return Val(st, sh, None, False, True, "Power domain")
+            return Val(st, sym(sh), None, False, True, "Power domain")
         if b.fx and b.ex == 0:
             return Val("def", _IV1, Fraction(1), True)
         if a.fx and a.ex == 1:
